@@ -95,7 +95,7 @@ def build_corpus(tier, rng):
     c = Corpus(ID)
     thorough = tier == "thorough"
     PLAIN.clear()
-    cands = [("regression", it) for it in regression()] + [("overlap", it) for it in overlapping()] + [("prelude-shadow", it) for it in shadowing()]
+    cands = [("regression", it) for it in regression()] + [("overlap", it) for it in overlapping()] + [("prelude-shadow", it) for it in shadowing()] + [("long-spelling", it) for it in c01.long_spellings() if not any(m.kind == "phf" for m in it.metas)]
     for it in c01.systematic(rng):
         for v in it.variants:
             if not v.has("default"):
